@@ -769,6 +769,7 @@ type dxGenOpts struct {
 	RouterID uint32
 	Cluster  uint32
 	Extras   bool // unknown attributes, aggregator, atomic aggregate, large communities
+	BigASNs  bool // ASNs above 65535 in the pool (only where the check is not about 2-octet sessions' wire form, see C17 finding asn4-truncated)
 }
 
 // dxGenBGP draws a BGP path as it can sit in a Loc-RIB: learned from one of
@@ -788,6 +789,9 @@ func dxGenBGP(t *rapid.T, label string, o dxGenOpts) dxAttrs {
 	}
 	// AS path
 	asnPool := []uint32{64601, 64602, 64603, 64700, 64701, 65000}
+	if o.BigASNs {
+		asnPool = append(asnPool, 70000, 4200000001)
+	}
 	nseg := rapid.IntRange(0, 2).Draw(t, label+"_nseg")
 	for i := 0; i < nseg; i++ {
 		s := dxSeg{Set: i > 0 && rapid.IntRange(0, 3).Draw(t, label+"_set") == 0}
